@@ -5,6 +5,8 @@
 //
 //	seq   <nf> <call>…                       one goroutine, calls in program order
 //	par   <nf> <call>… | <call>… | <call>…   first segment = sequential prologue, the others run on goroutines
+//	chain <nf> <call>… | <call>… | <call>…   like par; the summary also has order=<0|1>: every composed future's
+//	                                         callback ran after its source's (observed log order)
 //	cross <nf> <call>… | <call>… | <call>…   like par, but every callback registered by the prologue first meets the
 //	                                         other threads' callbacks at a rendezvous (forces "both inside a callback")
 //
@@ -257,7 +259,40 @@ func runSeq(nf int, prog []callT) string {
 	})
 }
 
+// orderOK: for every link `P f g out (L a)` and every `T out (L b)` of the program: b logged ⇒ a logged earlier.
+func orderOK(segs [][]callT, log []entry) int {
+	pos := map[int]int{}
+	for i, e := range log {
+		if _, ok := pos[e.tag]; !ok {
+			pos[e.tag] = i
+		}
+	}
+	for _, s := range segs {
+		for _, p := range s {
+			if p.kind != 'P' || p.cb.kind != 'L' {
+				continue
+			}
+			for _, s2 := range segs {
+				for _, t := range s2 {
+					if t.kind == 'T' && t.f == p.out && t.cb.kind == 'L' {
+						ib, okb := pos[t.cb.a]
+						ia, oka := pos[p.cb.a]
+						if okb && (!oka || ia >= ib) {
+							return 0
+						}
+					}
+				}
+			}
+		}
+	}
+	return 1
+}
+
 func runPar(nf int, segs [][]callT, cross, yield bool) string {
+	return runParX(nf, segs, cross, yield, false)
+}
+
+func runParX(nf int, segs [][]callT, cross, yield, chain bool) string {
 	return guard(func() string {
 		w := newWorld(nf, outsOf(segs))
 		w.yield = yield
@@ -317,7 +352,11 @@ func runPar(nf int, segs [][]callT, cross, yield bool) string {
 		if t == "" {
 			t = "-"
 		}
-		return fmt.Sprintf("tags=%s done=%s agree=%d adm=%d", t, done, agree, adm)
+		out := fmt.Sprintf("tags=%s done=%s agree=%d adm=%d", t, done, agree, adm)
+		if chain {
+			out += fmt.Sprintf(" order=%d", orderOK(segs, w.log))
+		}
+		return out
 	})
 }
 
@@ -501,7 +540,7 @@ func main() {
 			break
 		}
 		nf, segs := genChain(r)
-		run.Case("chain", progLine("par", nf, segs), runPar(nf, segs, false, r.Bool()))
+		run.Case("chain", progLine("chain", nf, segs), runParX(nf, segs, false, r.Bool(), true))
 	}
 	run.Extra["hangs"] = hangs
 	run.Finish()
